@@ -1,13 +1,32 @@
-"""Native replay for C15 (histories): every fixture extracted in isolation (fresh process) vs inside long
-sequences (two orders, failing inputs interleaved) in one process; process-global state compared before/after."""
+"""Native replay for C15: histories AND (one-preemption) schedules on the real code.
+
+Every run happens in a child forked from this process, which only ever *imports* the library: the state of the
+parent is the state of a fresh process, so "result in isolation" is a fork that does nothing else.
+
+  * memo_search      function-level: f(y) after f(x) vs f(y) in isolation, arguments drawn from type-directed pools (TrueType
+                     programs and all their one-byte variants, AES keys, paths, glyph-id lists) -- finds colliding cache keys;
+  * history_search   document-level: generated documents (EPUB / HTML incl. truncated ones, text, archives, corrupt inputs) and
+                     small fixtures, every ordered pair against the isolated baseline, process-global state before / after;
+  * serial_search    stored payloads deserialised after other (de)serialisation work vs in isolation;
+  * schedule_search  two threads, thread A preempted ONCE at every line of the functions that touch a piece of module state
+                     (sys.settrace), thread B runs to completion, A resumes; outcomes against the isolated baselines;
+  * fixtures         (legacy, `list_all`) every fixture forward / reverse in one process vs fresh-process baselines.
+"""
 import glob
 import hashlib
+import importlib
 import io
 import json
 import os
+import signal
+import struct
 import subprocess
 import sys
 import tempfile
+import threading
+import zipfile
+
+REPO = os.environ.get("VERIF_REPO", "/repo")
 
 ISOLATED = r'''
 import sys, io, json, hashlib, logging
@@ -46,6 +65,7 @@ def global_state():
             st[modname + ".get_encoding"] = id(getattr(m, "get_encoding", None))
         except Exception:  # noqa
             pass
+    st.update(interpreter_settings())
     st["tmp_entries"] = len(os.listdir(tempfile.gettempdir()))
     try:
         st["open_fds"] = len(os.listdir("/proc/self/fd"))
@@ -54,12 +74,809 @@ def global_state():
     return st
 
 
-def find(req):
-    repo = os.environ.get("VERIF_REPO", "/repo")
+def interpreter_settings():
+    """Interpreter- / library-wide settings an extraction could change and forget to put back (compared by value)."""
+    import csv
+    import decimal
+    import locale
+    import logging as _logging
+    import mimetypes
+    import socket
+    import warnings
+    out = {}
+
+    def put(k, fn):
+        try:
+            out["setting:" + k] = repr(fn())
+        except Exception:  # noqa
+            pass
+    put("sys.getrecursionlimit", sys.getrecursionlimit)
+    put("csv.field_size_limit", csv.field_size_limit)
+    put("socket.getdefaulttimeout", socket.getdefaulttimeout)
+    put("locale", lambda: locale.setlocale(locale.LC_ALL))
+    put("warnings.filters", lambda: [(f[0], getattr(f[2], "__name__", f[2]), f[4]) for f in warnings.filters])
+    put("logging.disable", lambda: _logging.root.manager.disable)
+    put("logging.root.level", lambda: _logging.root.level)
+    put("cwd", os.getcwd)
+    put("os.environ", lambda: hashlib.sha256(repr(sorted(os.environ.items())).encode()).hexdigest()[:16])
+    put("sys.path", lambda: hashlib.sha256(repr(sys.path).encode()).hexdigest()[:16])
+    put("decimal.prec", lambda: (decimal.getcontext().prec, decimal.getcontext().rounding))
+    put("mimetypes", lambda: (len(mimetypes.types_map), len(mimetypes.common_types), len(mimetypes.suffix_map), len(mimetypes.encodings_map)))
+    put("sys.settrace", lambda: sys.gettrace() is not None)
+    put("switchinterval", sys.getswitchinterval)
+    put("gc", lambda: (__import__("gc").isenabled(), __import__("gc").get_threshold()))
+    put("tempfile.tempdir", lambda: tempfile.tempdir)
+    # plain module-level settings of every third-party module that is loaded (pypdf limits, PIL switches, ...), by value
+    for name, mod in sorted(sys.modules.items()):
+        f = getattr(mod, "__file__", None) or ""
+        if "site-packages" not in f:
+            continue
+        try:
+            simple = sorted((k, repr(v)) for k, v in vars(mod).items()
+                            if not k.startswith("__") and isinstance(v, (bool, int, float, str, bytes, type(None))))
+        except Exception:  # noqa
+            continue
+        if simple:
+            out["setting:module " + name] = hashlib.sha256(repr(simple).encode()).hexdigest()[:12]
+    try:
+        from PIL import Image, ImageFile
+        put("PIL.MAX_IMAGE_PIXELS", lambda: Image.MAX_IMAGE_PIXELS)
+        put("PIL.LOAD_TRUNCATED_IMAGES", lambda: ImageFile.LOAD_TRUNCATED_IMAGES)
+    except Exception:  # noqa
+        pass
+    try:
+        from xml.etree import ElementTree as ET
+        put("ET._namespace_map", lambda: len(ET._namespace_map))
+    except Exception:  # noqa
+        pass
+    return out
+
+
+def state_diff(before, after):
+    mism = []
+    for k in before:
+        if k in ("tmp_entries", "open_fds"):
+            if after.get(k, 0) > before[k]:
+                mism.append((k, f"{before[k]} -> {after.get(k)}"))
+        elif k.startswith("setting:"):
+            if before[k] != after.get(k):
+                mism.append((k, f"{before[k][:80]} -> {str(after.get(k))[:80]}"))
+        elif before[k] != after.get(k):
+            mism.append((k, "function object replaced and not restored"))
+    return mism
+
+
+# ------------------------------------------------------------------ forking --
+def forked(fn, timeout=120):
+    """fn() in a forked child of this pristine process -> {"ok": result} | {"err": "Type: msg"}."""
+    r, w = os.pipe()
+    pid = os.fork()
+    if pid == 0:
+        os.close(r)
+        signal.alarm(timeout)
+        try:
+            res = {"ok": fn()}
+        except BaseException as e:  # noqa
+            res = {"err": type(e).__name__ + ": " + str(e)[:200]}
+        try:
+            with os.fdopen(w, "w") as fh:
+                json.dump(res, fh, default=repr)
+        finally:
+            os._exit(0)
+    os.close(w)
+    with os.fdopen(r) as fh:
+        data = fh.read()
+    os.waitpid(pid, 0)
+    try:
+        return json.loads(data)
+    except ValueError:
+        return {"err": "child died (timeout / crash)"}
+
+
+def outcome(fn, *args):
+    try:
+        return ["ok", canon(fn(*args))]
+    except BaseException as e:  # noqa
+        return ["exc", type(e).__name__]
+
+
+def canon(v):
+    if isinstance(v, (bytes, bytearray, memoryview)):
+        return "bytes:" + bytes(v).hex()
+    if isinstance(v, dict):
+        return {"dict": [[canon(k), canon(x)] for k, x in v.items()]}
+    if isinstance(v, (list, tuple)):
+        return [canon(x) for x in v]
+    if isinstance(v, (str, int, float, bool)) or v is None:
+        return v
+    if isinstance(v, type):
+        return "type:" + v.__name__
+    from dataclasses import fields, is_dataclass
+    if is_dataclass(v):
+        return {"dataclass": type(v).__name__, "fields": [[f.name, canon(getattr(v, f.name))] for f in fields(v)]}
+    if hasattr(v, "getvalue"):
+        return "bytesio:" + hashlib.sha256(v.getvalue()).hexdigest()
+    if callable(v):
+        return "callable:" + getattr(v, "__qualname__", type(v).__name__)
+    return "obj:" + type(v).__name__
+
+
+# ------------------------------------------------------------ generated data --
+def build_ttf(glyph_boxes, units=2048):
+    """Minimal TrueType program (glyf, head, loca long, maxp), per-table checksums 0."""
+    head = bytearray(54)
+    head[18:20] = struct.pack(">H", units)
+    head[50:52] = struct.pack(">h", 1)
+    maxp = bytearray(6)
+    maxp[4:6] = struct.pack(">H", len(glyph_boxes))
+    glyf, offsets = b"", []
+    for (w, h) in glyph_boxes:
+        offsets.append(len(glyf))
+        glyf += struct.pack(">hhhhh", 1, 0, 0, w, h) + b"\x00\x00"
+    offsets.append(len(glyf))
+    loca = b"".join(struct.pack(">I", o) for o in offsets)
+    tables = [(b"glyf", glyf), (b"head", bytes(head)), (b"loca", loca), (b"maxp", bytes(maxp))]
+    header = struct.pack(">IHHHH", 0x00010000, len(tables), 64, 2, 0)
+    off = 12 + 16 * len(tables)
+    directory = body = b""
+    for tag, data in tables:
+        directory += struct.pack(">4sIII", tag, 0, off, len(data))
+        body += data
+        off += len(data)
+    return header + directory + body
+
+
+def bytes_pool():
+    base = build_ttf([(0, 0), (540, 1472), (949, 1447)])
+    other = build_ttf([(0, 0), (949, 1447), (540, 1472)])
+    pool = [base, other]
+    # file signatures (content sniffing): same name, different leading bytes
+    pool += [sig + b"\x00" * 24 for sig in (b"\x89PNG\r\n\x1a\n", b"\xff\xd8\xff\xe0", b"GIF89a", b"BM", b"II*\x00", b"MM\x00*", b"%PDF-1.4\n", b"PK\x03\x04",
+                                              b"\xd0\xcf\x11\xe0\xa1\xb1\x1a\xe1", b"<?xml version=\"1.0\"?><svg/>", b"RIFF\x00\x00\x00\x00WEBP")]
+    for i in range(len(base)):                       # every one-byte variant: a cache key that ignores a byte collides here
+        pool.append(base[:i] + bytes([base[i] ^ 0x15]) + base[i + 1:])
+    k16 = bytes(range(16))
+    pool += [k16, bytes(16), bytes(range(24)), bytes(range(32)), bytes(32), b"", b"\x00", k16[:15], k16 + b"\x00"]
+    for i in range(16):
+        pool.append(k16[:i] + bytes([k16[i] ^ 0x80]) + k16[i + 1:])
+    return pool
+
+
+POOLS = {
+    "bytes": bytes_pool,
+    "list[int]": lambda: [[1, 2], [2, 1], [1], [0, 1, 2, 3], []],
+    "str": lambda: ["a.png", "b.png", "a.jpg", "Pictures/image1.png", "a.PNG", "x.unknown", "", "dir/a.png", "a.png ", "doc.pdf", "a.svg", "ä.png"],
+    "int": lambda: [0, 1, 2, 255],
+    "bool": lambda: [False, True],
+}
+
+CONTAINER = ('<?xml version="1.0"?><container version="1.0" xmlns="urn:oasis:names:tc:opendocument:xmlns:container"><rootfiles>'
+             '<rootfile full-path="OEBPS/content.opf" media-type="application/oebps-package+xml"/></rootfiles></container>')
+OPF = ('<?xml version="1.0" encoding="utf-8"?><package xmlns="http://www.idpf.org/2007/opf" version="3.0" unique-identifier="id">'
+       '<metadata xmlns:dc="http://purl.org/dc/elements/1.1/"><dc:title>{title}</dc:title><dc:identifier id="id">{title}</dc:identifier>'
+       '<dc:language>en</dc:language></metadata><manifest>{items}</manifest><spine>{refs}</spine></package>')
+HEAD = '<?xml version="1.0"?><html xmlns="http://www.w3.org/1999/xhtml"><head><title>t</title></head><body>'
+GOOD = (HEAD + "<h1>Quarterly figures</h1><p>Revenue rose by 12 percent.</p><p>Costs were flat.</p>"
+        "<table><tr><td>Q1</td><td>100</td></tr><tr><td>Q2</td><td>112</td></tr></table><p>Outlook unchanged.</p></body></html>")
+# content documents that stop in the middle of an element (truncated download / sloppy generator), one per parser state
+TRUNCATED = {
+    "cell": HEAD + "<h1>Inventory</h1><table><tr><td>Widgets</td><td>4",
+    "table": HEAD + "<p>x</p><table><tr><td>a</td></tr>",
+    "title": '<?xml version="1.0"?><html xmlns="http://www.w3.org/1999/xhtml"><head><title>Unfinished',
+    "script": HEAD + "<p>before</p><script>var a = 1;",
+    "style": HEAD + "<style>p { color: red",
+    "block": HEAD + "<div><p>open paragraph",
+    "heading": HEAD + "<h2>open heading",
+    "list": HEAD + "<ul><li>one<li>two",
+    "comment": HEAD + "<p>a</p><!-- unterminated",
+    "entity": HEAD + "<p>a &amp",
+    "pre": HEAD + "<pre>  keep   this",
+    "anchor": HEAD + '<p><a href="http://e.org/x">link text',
+}
+
+
+def make_epub(title, chapters):
+    buf = io.BytesIO()
+    with zipfile.ZipFile(buf, "w") as zf:
+        zf.writestr("mimetype", "application/epub+zip", zipfile.ZIP_STORED)
+        zf.writestr("META-INF/container.xml", CONTAINER)
+        items = "".join(f'<item id="c{i}" href="c{i}.xhtml" media-type="application/xhtml+xml"/>' for i in range(len(chapters)))
+        refs = "".join(f'<itemref idref="c{i}"/>' for i in range(len(chapters)))
+        zf.writestr("OEBPS/content.opf", OPF.format(title=title, items=items, refs=refs))
+        for i, ch in enumerate(chapters):
+            zf.writestr(f"OEBPS/c{i}.xhtml", ch)
+    return buf.getvalue()
+
+
+def make_zip(members):
+    buf = io.BytesIO()
+    with zipfile.ZipFile(buf, "w") as zf:
+        for n, d in members:
+            zf.writestr(n, d)
+    return buf.getvalue()
+
+
+def generated_corpus(tmp):
+    """[(label, path)]: small documents of several formats, well-formed ones and ones that fail or stop early."""
+    docs = []
+
+    def add(label, name, data):
+        p = os.path.join(tmp, name)
+        with open(p, "wb") as fh:
+            fh.write(data if isinstance(data, bytes) else data.encode("utf-8"))
+        docs.append((label, p))
+
+    add("epub good", "good.epub", make_epub("Book B", [GOOD]))
+    add("epub two chapters", "two.epub", make_epub("Book C", [GOOD.replace("Quarterly", "Annual"), HEAD + "<p>second</p></body></html>"]))
+    for k, frag in TRUNCATED.items():
+        add(f"epub truncated in {k}", f"trunc_{k}.epub", make_epub("Book " + k, [frag]))
+    add("html good", "good.html", GOOD)
+    for k in ("cell", "title", "script", "comment"):
+        add(f"html truncated in {k}", f"trunc_{k}.html", TRUNCATED[k])
+    add("text", "plain.txt", "alpha\nbeta 123\n")
+    add("csv", "t.csv", "a,b\n1,2\n")
+    add("markdown", "n.md", "# T\n\ntext\n")
+    add("json", "d.json", '{"a": [1, 2]}')
+    add("zip of text+html", "a.zip", make_zip([("x.txt", "inside"), ("y.html", GOOD)]))
+    add("zip with corrupt member", "b.zip", make_zip([("x.pdf", b"%PDF-1.4 broken"), ("z.txt", "tail")]))
+    add("corrupt zip", "c.zip", b"PK\x03\x04" + b"\x00" * 40)
+    add("corrupt pdf", "bad.pdf", b"%PDF-1.7\n1 0 obj <<>> endobj\ntrailer <<>>\n%%EOF")
+    add("corrupt docx", "bad.docx", make_zip([("word/document.xml", "<w:document")]))
+    add("corrupt epub", "bad.epub", make_zip([("mimetype", "application/epub+zip")]))
+    add("corrupt 7z", "bad.7z", b"7z\xbc\xaf\x27\x1c\x00\x04" + b"\x01" * 40)
+    add("rtf", "r.rtf", r"{\rtf1\ansi{\fonttbl{\f0 Arial;}}\f0 Hello \b world\b0 .\par}")
+    add("eml", "m.eml", "From: a@e.org\nTo: b@e.org\nSubject: s\nDate: Mon, 1 Jan 2024 00:00:00 +0000\n\nbody\n")
+    return docs
+
+
+def small_fixtures(limit=400_000, per_dir=3):
+    out = []
+    for d in sorted(glob.glob(REPO + "/sharepoint2text/tests/resources/*")):
+        fs = sorted(f for f in glob.glob(d + "/*") if os.path.isfile(f) and os.path.getsize(f) < limit)
+        out += [(os.path.relpath(f, REPO), f) for f in fs[:per_dir]]
+    return out
+
+
+# --------------------------------------------------------------- memo search --
+def _kind(ann):
+    s = ann if isinstance(ann, str) else (str(ann) if getattr(ann, "__origin__", None) is not None else getattr(ann, "__name__", None) or str(ann))
+    s = str(s).replace("typing.", "").replace("List", "list").replace(" ", "")
+    if s.startswith("Optional[") and s.endswith("]"):
+        return _kind(s[9:-1])
+    if s.endswith("|None"):
+        return _kind(s[:-5])
+    if s.startswith("None|"):
+        return _kind(s[5:])
+    if s in ("bytes", "bytes|bytearray", "bytearray"):
+        return "bytes"
+    if s in ("list[int]", "Sequence[int]", "tuple[int,...]"):
+        return "list[int]"
+    return s if s in POOLS else None
+
+
+def memo_search(rel, qual, budget=700):
+    import inspect
+    if not rel or not qual or "." in qual:
+        return None
+    try:
+        mod = importlib.import_module(rel[:-3].replace("/", "."))
+        f = getattr(mod, qual)
+        sig = inspect.signature(f)
+    except Exception:  # noqa
+        return None
+    kinds = []
+    for p in sig.parameters.values():
+        if p.kind in (p.VAR_POSITIONAL, p.VAR_KEYWORD):
+            return None
+        k = _kind(p.annotation)
+        if k is None:
+            if p.default is not p.empty:
+                continue
+            return None
+        kinds.append(k)
+    if not kinds:
+        return None
+    pools = [POOLS[k]() for k in kinds]
+    # argument tuples: the first pool in full, the others at their first values; then the others varied at the first two firsts
+    cands = []
+    firsts = [p[0] for p in pools]
+    for i, pool in enumerate(pools):
+        for v in pool:
+            t = list(firsts)
+            t[i] = v
+            if t not in cands:
+                cands.append(t)
+    for i, pool in enumerate(pools[1:], 1):
+        for v in pool[:3]:
+            t = [p[1] if len(p) > 1 else p[0] for p in pools]
+            t[i] = v
+            if t not in cands:
+                cands.append(t)
+    cands = cands[:budget]
+    show = lambda t: [("hex:" + bytes(x).hex()) if isinstance(x, (bytes, bytearray)) else x for x in t]
+    base = [forked(lambda y=y: outcome(f, *y)).get("ok") for y in cands]
+    step = 1 if len(cands) <= 320 else len(cands) // 160
+    firsts_x = cands[:2] + cands[2::step]                  # every candidate is also tried as the earlier call (sampled above 320)
+    for x in firsts_x:
+        def run(x=x):
+            outcome(f, *x)
+            return [outcome(f, *y) for y in cands]
+        got = forked(run).get("ok") or []
+        for y, b, g in zip(cands, base, got):
+            if b is not None and g != b:
+                # confirm with the minimal history [x, y]
+                g2 = forked(lambda: (outcome(f, *x), outcome(f, *y))[1]).get("ok")
+                if g2 != b:
+                    return {"reproduced": True, "target": f"{rel}::{qual}", "inputs": {"history": [show(x)], "call": show(y)},
+                            "expected": f"the result of the same call in a fresh process: {json.dumps(b)[:300]}", "observed": json.dumps(g2)[:300],
+                            "search": "memo differential: f(y) after f(x) vs f(y) in a forked pristine process"}
+        # and the other direction: x after each y is covered when y becomes x for the two `other` bases above
+    return None
+
+
+# ------------------------------------------------------------ history search --
+def history_search(docs=None, extra_note=""):
     import sharepoint2text
+    tmp = tempfile.mkdtemp(prefix="c15_replay_")
+    try:
+        docs = docs or generated_corpus(tmp)
+        paths = [p for (_l, p) in docs]
+        label = {p: l for (l, p) in docs}
+
+        def alone(p):
+            before = global_state()
+            d = digest(sharepoint2text, p)
+            return [d, state_diff(before, global_state())]
+        base = {}
+        for p in paths:
+            r = forked(lambda p=p: alone(p)).get("ok")
+            if r is None:
+                continue
+            base[p] = r[0]
+            leaks = [m for m in r[1] if m[0] != "open_fds"]
+            if leaks:
+                return {"reproduced": True, "target": label[p], "inputs": {"history": [], "document": label[p], "bytes_hex": _hex(p)},
+                        "expected": "process-global state restored after the extraction", "observed": f"{leaks[0][0]}: {leaks[0][1]}"}
+        paths = [p for p in paths if p in base]
+        for i, first in enumerate(paths):
+            rest = paths[i + 1:] + paths[:i]            # rotated: every document is the immediate successor of another one
+
+            def run(first=first, rest=rest):
+                digest(sharepoint2text, first)
+                return [digest(sharepoint2text, p) for p in rest + [first]]
+            got = forked(run, timeout=300).get("ok") or []
+            for p, g in zip(rest + [first], got):
+                if g != base[p]:
+                    order = [first] + rest + [first]
+                    upto = order[: 1 + (rest + [first]).index(p)]
+                    hist_paths = None
+                    for cand in ([upto[-1]], [first], upto):     # smallest history first: the predecessor, the first document, the whole prefix
+                        g2 = forked(lambda cand=cand: [digest(sharepoint2text, q) for q in cand + [p]][-1], timeout=300).get("ok")
+                        if g2 != base[p]:
+                            hist_paths = cand
+                            break
+                    if hist_paths is not None:
+                        hist = [label[q] for q in hist_paths]
+                        return {"reproduced": True, "target": label[p],
+                                "inputs": {"history": hist, "history_bytes_hex": _hex(hist_paths[0]) if len(hist) == 1 else None, "document": label[p], "bytes_hex": _hex(p)},
+                                "expected": f"digest of the isolated extraction {base[p][:16]}", "observed": f"{str(g2)[:16]} after extracting {hist} in the same process",
+                                "search": "generated documents, every document after every other one" + extra_note}
+        return None
+    finally:
+        import shutil
+        shutil.rmtree(tmp, ignore_errors=True)
+
+
+def _hex(p, cap=4000):
+    try:
+        b = open(p, "rb").read()
+        return b.hex() if len(b) <= cap else None
+    except OSError:
+        return None
+
+
+# ------------------------------------------------------ (de)serialisation ----
+def describe(obj):
+    from dataclasses import fields, is_dataclass
+    if is_dataclass(obj) and not isinstance(obj, type):
+        return {"__class__": type(obj).__name__, **{f.name: describe(getattr(obj, f.name)) for f in fields(obj)}}
+    if isinstance(obj, dict):
+        return {"__dict__": {str(k): describe(v) for k, v in obj.items()}}
+    if isinstance(obj, (list, tuple)):
+        return [describe(v) for v in obj]
+    if hasattr(obj, "getvalue"):
+        return {"__bytesio__": len(obj.getvalue())}
+    if isinstance(obj, (bytes, bytearray)):
+        return {"__bytes__": len(obj)}
+    return obj if isinstance(obj, (str, int, float, bool)) or obj is None else repr(type(obj))
+
+
+def payloads():
+    """[(label, json text)] stored extraction results, each produced in its own fresh process."""
+    import sharepoint2text
+    want = ["pdf/multi_image.pdf", "modern_ms/sample_with_comment_and_table.docx", "plain_text/plain.txt", "pdf/multi_table.pdf", "html/sample.html"]
+    files = [REPO + "/sharepoint2text/tests/resources/" + w for w in want]
+    files = [f for f in files if os.path.isfile(f)]
+    if len(files) < 3:
+        files += [p for (_l, p) in small_fixtures(per_dir=1)][:6]
+    out = []
+    for f in files:
+        def mk(f=f):
+            ex = sharepoint2text.get_extractor(f)
+            r = next(iter(ex(io.BytesIO(open(f, "rb").read()), f)))
+            return json.dumps(r.to_json())
+        r = forked(mk).get("ok")
+        if r:
+            out.append((os.path.relpath(f, REPO), f, r))
+    return out
+
+
+def serial_search():
+    import sharepoint2text
+    from sharepoint2text.parsing.extractors import serialization as ser
+    pls = payloads()
+    if not pls:
+        return None
+
+    def load(text):
+        return describe(ser.deserialize_extraction(json.loads(text)))
+    base = {lab: forked(lambda t=t: load(t)).get("ok") for (lab, _f, t) in pls}
+    ops = []
+    for (lab, f, t) in pls:
+        ops.append((f"extract {lab} and to_json()", lambda f=f: [json.dumps(r.to_json()) for r in sharepoint2text.get_extractor(f)(io.BytesIO(open(f, "rb").read()), f)]))
+        ops.append((f"deserialize_extraction(stored result of {lab})", lambda t=t: load(t)))
+    for (oplab, op) in ops:
+        for (lab, _f, t) in pls:
+            def run(op=op, t=t):
+                try:
+                    op()
+                except Exception:  # noqa
+                    pass
+                return load(t)
+            got = forked(run).get("ok")
+            if base[lab] is not None and got != base[lab]:
+                return {"reproduced": True, "target": "serialization.deserialize_extraction", "inputs": {"history": [oplab], "call": f"deserialize_extraction(stored result of {lab})"},
+                        "expected": "the object tree a fresh process restores: " + _skeleton(base[lab]), "observed": _skeleton(got),
+                        "search": "stored payloads of fixtures loaded after one other (de)serialisation step vs in a forked pristine process"}
+    return None
+
+
+def _skeleton(o, depth=0):
+    if isinstance(o, dict) and "__class__" in o:
+        inner = sorted({_skeleton(v, depth + 1) for v in o.values() if isinstance(v, (dict, list))} - {""})
+        return o["__class__"] + ("(" + ", ".join(inner)[:160] + ")" if inner and depth < 3 else "")
+    if isinstance(o, dict) and "__dict__" in o:
+        return "plain dict"
+    if isinstance(o, list):
+        return "[" + ", ".join(sorted({_skeleton(v, depth + 1) for v in o} - {""}))[:120] + "]" if o else ""
+    return ""
+
+
+# ---------------------------------------------------------- schedule search --
+BLOCK_WAIT = 0.6      # a released thread that neither parks nor finishes within this time is blocked on a lock the other one holds
+
+
+def run_schedule(task_a, task_b, files, funcs, n, block_wait=None):
+    """Thread A runs task_a and is parked at its n-th line event inside (files, funcs); thread B then runs task_b to the end;
+    A resumes.  Returns (outcome A, outcome B, line events seen, where A was parked)."""
+    out, cnt, where = {}, [0], [None]
+    parked, resume = threading.Event(), threading.Event()
+
+    def tracer(frame, event, arg):
+        co = frame.f_code
+        if co.co_filename not in files or (funcs and co.co_name not in funcs):
+            return None
+
+        def local(frame, event, arg):
+            if event == "line":
+                cnt[0] += 1
+                if cnt[0] == n:
+                    where[0] = f"{os.path.basename(frame.f_code.co_filename)}:{frame.f_lineno} in {frame.f_code.co_name}"
+                    parked.set()
+                    resume.wait(block_wait or 20)          # B done -- or B is blocked waiting for us: go on
+            return local
+        return local
+
+    def a():
+        sys.settrace(tracer)
+        try:
+            out["A"] = outcome(task_a)
+        finally:
+            sys.settrace(None)
+            parked.set()
+
+    def b():
+        parked.wait(20)
+        try:
+            out["B"] = outcome(task_b)
+        finally:
+            resume.set()
+    ta, tb = threading.Thread(target=a), threading.Thread(target=b)
+    ta.start()
+    tb.start()
+    ta.join(40)
+    tb.join(40)
+    return out.get("A"), out.get("B"), cnt[0], where[0]
+
+
+def workloads(rel):
+    """[(label A, task A, label B, task B)] concurrent workloads for the module that owns the state."""
+    import sharepoint2text
+    base = os.path.basename(rel or "")
+    w = []
+    if base == "_pypdf_aes_fallback.py":
+        from sharepoint2text.parsing.extractors.pdf import _pypdf_aes_fallback as aes
+        key, iv = bytes(range(32)), bytes(range(16, 32))
+        plain = b"stream of document A, 48 bytes, three AES blocks"
+        ct = forked(lambda: aes.aes_cbc_encrypt(key, iv, plain).hex()).get("ok")
+        if ct:
+            ct = bytes.fromhex(ct)
+
+            def others():
+                for n in range(6):
+                    aes.aes_cbc_encrypt(bytes([n + 1]) * 16, bytes(16), bytes(32))
+                return "done"
+
+            def warm_then(fn):
+                return fn
+            w.append(("aes_cbc_decrypt(key A, iv, 3 blocks)", lambda: aes.aes_cbc_decrypt(key, iv, ct),
+                      "aes_cbc_encrypt under 6 other keys (password checks of other documents)", others, None))
+            w.append(("aes_cbc_decrypt(key A, ...) with key A already cached", lambda: aes.aes_cbc_decrypt(key, iv, ct),
+                      "aes_cbc_encrypt under 6 other keys", others, lambda: aes.aes_ecb_encrypt(key, bytes(16))))
+    elif base == "serialization.py":
+        from sharepoint2text.parsing.extractors import serialization as ser
+        pls = payloads()
+        if len(pls) >= 2:
+            (la, _fa, ta), (lb, _fb, tb) = pls[0], pls[1]
+            w.append((f"deserialize_extraction(stored {la})", lambda: describe(ser.deserialize_extraction(json.loads(ta))),
+                      f"deserialize_extraction(stored {lb})", lambda: describe(ser.deserialize_extraction(json.loads(tb))), None))
+            w.append((f"deserialize_extraction(stored {lb})", lambda: describe(ser.deserialize_extraction(json.loads(tb))),
+                      f"deserialize_extraction(stored {la})", lambda: describe(ser.deserialize_extraction(json.loads(ta))), None))
+    elif base == "pdf_extractor.py":
+        from sharepoint2text.parsing.extractors.pdf import pdf_extractor as pe
+        fa, fb = build_ttf([(0, 0), (540, 1472), (949, 1447)]), build_ttf([(0, 0), (949, 1447), (540, 1472)])
+        if hasattr(pe, "_ttf_get_glyph_features"):
+            w.append(("_ttf_get_glyph_features(font A, [1, 2])", lambda: pe._ttf_get_glyph_features(fa, [1, 2]),
+                      "_ttf_get_glyph_features(font B, [1, 2])", lambda: pe._ttf_get_glyph_features(fb, [1, 2]), None))
+    if not w:
+        tmp = tempfile.mkdtemp(prefix="c15_sched_")
+        docs = dict(generated_corpus(tmp))
+        kind = ".epub" if "epub" in base else (".html" if "html" in base else ".zip" if "archive" in base else ".epub")
+        ps = [p for p in docs.values() if p.endswith(kind)][:3]
+        for a in ps[:2]:
+            for b in ps:
+                if a != b:
+                    w.append((f"extract {os.path.basename(a)}", lambda a=a: digest(sharepoint2text, a), f"extract {os.path.basename(b)}", lambda b=b: digest(sharepoint2text, b), None))
+    return w
+
+
+def schedule_search(rel, funcs, cap=260):
+    files = {os.path.join(REPO, rel)} if rel else set()
+    funcs = set(funcs or ())
+    for (la, ta, lb, tb, warm) in workloads(rel):
+        import time as _time
+        base_a = forked(lambda: outcome(ta)).get("ok")
+        t0 = _time.time()
+        base_b = forked(lambda: outcome(tb)).get("ok")
+        bw = max(1.0, 25 * (_time.time() - t0))            # B needs about this long alone; much longer = blocked on a lock A holds
+
+        def prep():
+            if warm:
+                warm()
+        total = forked(lambda: (prep(), run_schedule(ta, lambda: None, files, funcs, -1))[1][2]).get("ok") or 0
+        if not total:
+            continue
+        ns = list(range(1, total + 1))
+        if total > cap:
+            ns = ns[: cap // 2] + [1 + (k * (total - 1)) // (cap // 2) for k in range(cap // 2)]
+        for n in sorted(set(ns)):
+            r = forked(lambda n=n: (prep(), run_schedule(ta, tb, files, funcs, n, bw))[1], timeout=90).get("ok")
+            if not r:
+                continue
+            oa, ob, _cnt, where = r
+            if oa != base_a or ob != base_b:
+                who, exp, got = ("A", base_a, oa) if oa != base_a else ("B", base_b, ob)
+                return {"reproduced": True, "target": rel,
+                        "inputs": {"schedule": f"thread A: {la}" + (" (after a warm-up call)" if warm else "") + f"; parked at its line event #{n} ({where}); thread B: {lb}, runs to completion; A resumes",
+                                   "preemption_point": where, "line_event": n},
+                        "expected": f"thread {who}: the outcome of the same call alone: {json.dumps(exp)[:200]}", "observed": json.dumps(got)[:300],
+                        "search": f"two threads, one preemption of A at each of {len(set(ns))} line events of the functions touching the state ({total} in all)"}
+    return None
+
+
+# ------------------------------------------------- context-manager protocol --
+def module_snapshot(mod):
+    """Module-level flags / counters / configuration by value, function bindings by identity, plus the patched pypdf names."""
+    snap = {}
+    for k, v in vars(mod).items():
+        if k.startswith("__"):
+            continue
+        if isinstance(v, (bool, int, float, str, bytes, type(None))):
+            snap[k] = repr(v)
+        elif isinstance(v, (dict, list, set)) and len(v) < 64:
+            try:
+                snap[k] = repr(sorted(v.items()) if isinstance(v, dict) else v)[:400]
+            except Exception:  # noqa
+                snap[k] = f"{type(v).__name__}[{len(v)}]"
+        elif hasattr(v, "__dataclass_fields__") and not isinstance(v, type):
+            snap[k] = repr(v)[:400]
+    st = global_state()
+    st.pop("tmp_entries", None)
+    st.pop("open_fds", None)
+    snap.update({("<" + k + ">" if not k.startswith("setting:") else k): v for k, v in st.items()})
+    return snap
+
+
+def ctx_search(rel, qual):
+    """A zero-argument context manager of the package: every way of leaving the with-body (normally, by an exception, by a
+    BaseException, nested) must put the module state back, and a later use must behave like the first one."""
+    if not rel or not qual or "." in qual:
+        return None
+    try:
+        mod = importlib.import_module(rel[:-3].replace("/", "."))
+        cm = getattr(mod, qual)
+    except Exception:  # noqa
+        return None
+    import inspect
+    try:
+        if any(p.default is p.empty and p.kind in (p.POSITIONAL_ONLY, p.POSITIONAL_OR_KEYWORD, p.KEYWORD_ONLY) for p in inspect.signature(cm).parameters.values()):
+            return None
+    except (TypeError, ValueError):
+        return None
+
+    class Boom(Exception):
+        pass
+
+    class Hard(BaseException):
+        pass
+
+    def inside():
+        return {k: v for k, v in module_snapshot(mod).items() if k.startswith("<")}
+
+    def use(kind):
+        try:
+            with cm():
+                seen = inside()
+                if kind == "exception":
+                    raise Boom()
+                if kind == "base-exception":
+                    raise Hard()
+                if kind == "nested":
+                    with cm():
+                        pass
+                if kind == "nested-exception":
+                    try:
+                        with cm():
+                            raise Boom()
+                    except Boom:
+                        pass
+        except (Boom, Hard):
+            pass
+        return seen
+
+    def trial(kinds):
+        before = module_snapshot(mod)
+        first = None
+        for k in kinds:
+            seen = use(k)
+            first = first if first is not None else seen
+        after = module_snapshot(mod)
+        seen_last = use("normal")
+        return {"diff": sorted(k for k in set(before) | set(after) if before.get(k) != after.get(k)),
+                "before": before, "after": after,
+                "patched_first": first != {k: v for k, v in before.items() if k.startswith("<")},
+                "patched_later": seen_last != {k: v for k, v in after.items() if k.startswith("<")}}
+    for kinds in (["normal"], ["exception"], ["base-exception"], ["nested"], ["nested-exception"], ["exception", "normal"]):
+        r = forked(lambda kinds=kinds: trial(kinds)).get("ok")
+        if not r:
+            continue
+        if r["diff"]:
+            k = r["diff"][0]
+            return {"reproduced": True, "target": f"{rel}::{qual}", "inputs": {"history": [f"with {qual}(): <{x}>" for x in kinds]},
+                    "expected": f"module state restored: {k} == {r['before'].get(k)}", "observed": f"{k} == {r['after'].get(k)} after the with-statement(s)",
+                    "search": "context-manager protocol: normal / exception / BaseException / nested exits, module state before vs after"}
+        if r["patched_first"] != r["patched_later"]:
+            return {"reproduced": True, "target": f"{rel}::{qual}", "inputs": {"history": [f"with {qual}(): <{x}>" for x in kinds], "call": f"with {qual}(): <observe>"},
+                    "expected": f"the with-body sees the patched functions exactly as in the first use (patched={r['patched_first']})", "observed": f"patched={r['patched_later']}",
+                    "search": "context-manager protocol: a later use must behave like the first one"}
+    return None
+
+
+def run_schedule2(task_a, task_b, files, funcs, n, m, block_wait=BLOCK_WAIT):
+    """A runs to its n-th line event in (files, funcs) and parks; B runs to its m-th and parks; A finishes; B finishes."""
+    out, where = {}, {}
+    a_parked, b_parked, a_done = threading.Event(), threading.Event(), threading.Event()
+    cnt = {"A": 0, "B": 0}
+
+    def mk_tracer(who, limit, parked, wait_for):
+        def tracer(frame, event, arg):
+            co = frame.f_code
+            if co.co_filename not in files or (funcs and co.co_name not in funcs):
+                return None
+
+            def local(frame, event, arg):
+                if event == "line":
+                    cnt[who] += 1
+                    if cnt[who] == limit:
+                        where[who] = f"{os.path.basename(frame.f_code.co_filename)}:{frame.f_lineno} in {frame.f_code.co_name}"
+                        parked.set()
+                        wait_for.wait(block_wait)      # until the other thread parks / ends -- or is blocked on a lock this one holds
+                return local
+            return local
+        return tracer
+
+    def a():
+        sys.settrace(mk_tracer("A", n, a_parked, b_parked))
+        try:
+            out["A"] = outcome(task_a)
+        finally:
+            sys.settrace(None)
+            a_parked.set()
+            a_done.set()
+
+    def b():
+        a_parked.wait(20)
+        sys.settrace(mk_tracer("B", m, b_parked, a_done))
+        try:
+            out["B"] = outcome(task_b)
+        finally:
+            sys.settrace(None)
+            b_parked.set()
+    ta, tb = threading.Thread(target=a), threading.Thread(target=b)
+    ta.start()
+    tb.start()
+    ta.join(40)
+    tb.join(40)
+    return out.get("A"), out.get("B"), cnt["A"], cnt["B"], where.get("A"), where.get("B")
+
+
+def patcher_schedule_search(rel, qual, cap=24):
+    """Two threads use the zero-argument context manager `qual` (with-body: nothing) with two context switches: A enters ... B
+    enters ... A leaves ... B leaves, at every pair of line events of the context manager.  Afterwards the process-global state
+    must be what it was (and what a sequential run leaves)."""
+    try:
+        mod = importlib.import_module(rel[:-3].replace("/", "."))
+        cm = getattr(mod, qual)
+    except Exception:  # noqa
+        return None
+    files = {os.path.join(REPO, rel)}
+    funcs = {qual}
+
+    def use():
+        with cm():
+            pass
+        return "left"
+
+    def trial(n, m):
+        before = module_snapshot(mod)
+        r = run_schedule2(use, use, files, funcs, n, m, 0.25)
+        after = module_snapshot(mod)
+        return {"r": r, "diff": sorted(k for k in set(before) | set(after) if before.get(k) != after.get(k))}
+    seq = forked(lambda: trial(-1, -1)).get("ok")
+    if not seq or seq["diff"]:
+        return None
+    total_a, total_b = seq["r"][2], seq["r"][3]
+    pairs = [(n, m) for n in range(1, min(total_a, cap) + 1) for m in range(1, min(total_b, cap) + 1)]
+    pairs.sort(key=lambda p: abs(p[0] - total_a / 2) + abs(p[1] - total_b / 2))          # around the yield first: both threads inside the with-body
+    if True:
+        for (n, m) in pairs:
+            t = forked(lambda n=n, m=m: trial(n, m), timeout=90).get("ok")
+            if t and t["diff"]:
+                return {"reproduced": True, "target": f"{rel}::{qual}",
+                        "inputs": {"schedule": f"thread A: `with {qual}(): pass`, parked at its line event #{n} ({t['r'][4]}); thread B: the same, parked at its line event #{m} "
+                                               f"({t['r'][5]}); A runs to the end; B runs to the end", "preemption_point": t["r"][4], "line_events": [n, m]},
+                        "expected": "afterwards every patched attribute is what it was before (as after a sequential run)",
+                        "observed": f"{t['diff'][0]} differs: a wrapper installed by one thread was saved as `original` by the other and put back last",
+                        "search": f"two threads, two context switches, every pair of the first {cap} line events of the context manager"}
+    return None
+
+
+# ------------------------------------------------------------------ fixtures --
+def fixtures_check():
+    import sharepoint2text
+    repo = REPO
     files = sorted(f for f in glob.glob(repo + "/sharepoint2text/tests/resources/*/*") if os.path.isfile(f) and sharepoint2text.is_supported_file(f))
     files = [f for f in files if os.path.getsize(f) < 3_000_000]
-    # warm-up (imports, one-way AES patch) then snapshot
     digest(sharepoint2text, files[0])
     for f in files:
         if f.endswith(".pdf"):
@@ -69,30 +886,175 @@ def find(req):
     seq1 = {f: digest(sharepoint2text, f) for f in files}
     seq2 = {f: digest(sharepoint2text, f) for f in reversed(files)}
     after = global_state()
-    mism = []
-    for k in before:
-        if k in ("tmp_entries", "open_fds"):
-            if after.get(k, 0) > before[k]:
-                mism.append((k, f"{before[k]} -> {after.get(k)}"))
-        elif before[k] != after.get(k):
-            mism.append((k, "function object replaced and not restored"))
+    mism = state_diff(before, after)
     for f in files:
         if seq1[f] != seq2[f]:
             mism.append((f[len(repo) + 1:], "result depends on extraction order within one process"))
-    # isolated baseline for the PDFs and a sample of the rest (fresh process each)
     sample = [f for f in files if f.endswith(".pdf")] + files[::9]
     for f in sample:
         p = subprocess.run([sys.executable, "-c", ISOLATED, repo, f], capture_output=True, text=True, timeout=300)
         iso = (p.stdout.strip().splitlines() or ["?"])[-1]
         if iso != seq1[f]:
             mism.append((f[len(repo) + 1:], "result in a long sequence differs from the isolated extraction"))
+    return mism, len(files), len(sample)
+
+
+def bounded_validation():
+    """The BOUNDED native validation run on every check: generated-document histories (forked), (de)serialisation histories,
+    then the fixture sequences (which use this very process, so they come last)."""
+    mism = []
+    for name, fn in (("generated", lambda: history_search(extra_note="")), ("serialisation", serial_search)):
+        try:
+            r = fn()
+        except Exception as e:  # noqa
+            r = None
+            mism.append((name, "search crashed: " + repr(e)[:200]))
+        if r:
+            mism.append((r["target"], f"{r['observed']} (history: {r['inputs'].get('history')})"))
+    m2, nfiles, nsample = fixtures_check()
+    return mism + m2, nfiles, nsample
+
+
+def private_tmp():
+    """Temp-file residue is counted in a directory nobody else writes to (the machine's /tmp is shared)."""
+    d = tempfile.mkdtemp(prefix="c15_tmp_")
+    os.environ["TMPDIR"] = d
+    tempfile.tempdir = d
+    return d
+
+
+def find(req):
+    import shutil
+    d = private_tmp()
+    try:
+        r = _find(req)
+        if isinstance(r, dict) and "hint" not in r:
+            r["hint"] = req.get("extra")
+        return r
+    finally:
+        tempfile.tempdir = None
+        os.environ.pop("TMPDIR", None)
+        shutil.rmtree(d, ignore_errors=True)
+
+
+def preimport():
+    """Import (never call) every module of the package and the heavy third-party ones, so that forked children start warm."""
+    import pkgutil
+    import sharepoint2text
+    for m in pkgutil.walk_packages(sharepoint2text.__path__, "sharepoint2text."):
+        if ".tests" in m.name or "sharepoint_io" in m.name:
+            continue
+        try:
+            importlib.import_module(m.name)
+        except Exception:  # noqa
+            pass
+    for name in ("pypdf", "pypdf._page", "olefile", "xlrd", "openpyxl", "defusedxml.ElementTree", "PIL.Image", "email.parser", "mailbox", "tarfile", "lzma", "bz2"):
+        try:
+            importlib.import_module(name)
+        except Exception:  # noqa
+            pass
+    # every submodule of the third-party packages in use, so that their module-level settings exist in the "before" snapshot
+    tops = sorted({n.split(".")[0] for n, m in list(sys.modules.items()) if "site-packages" in (getattr(m, "__file__", None) or "")})
+    for top in tops:
+        pkg = sys.modules.get(top)
+        if pkg is None or not hasattr(pkg, "__path__") or top in ("pip", "setuptools", "pkg_resources", "_pytest", "pytest"):
+            continue
+        try:
+            for m in pkgutil.walk_packages(pkg.__path__, top + "."):
+                if any(part.startswith("test") or part in ("__main__", "conftest") for part in m.name.split(".")):
+                    continue
+                try:
+                    importlib.import_module(m.name)
+                except BaseException:  # noqa
+                    pass
+        except Exception:  # noqa
+            pass
+
+
+def _find(req):
+    preimport()
+    oid = req.get("obligation") or ""
+    hint = req.get("extra") or {}
     if req.get("list_all"):
-        return {"reproduced": bool(mism), "mismatches": mism, "fixtures": len(files)}
-    if mism:
-        return {"reproduced": True, "target": mism[0][0], "inputs": {"history": "all fixtures forward then reverse in one process"},
-                "expected": "same results as in isolation; process-global state restored", "observed": mism[0][1], "all": mism[:8]}
-    return {"reproduced": False, "note": f"{len(files)} fixtures, two orders, {len(sample)} isolated baselines: no history dependence, global state restored"}
+        mism, nfiles, _ = bounded_validation()
+        return {"reproduced": bool(mism), "mismatches": mism, "fixtures": nfiles}
+    if req.get("known"):
+        return {"results": [replay_known(k) for k in req["known"]]}
+    rel, funcs, writer = hint.get("rel"), hint.get("functions"), hint.get("writer")
+    plan = []
+    # function-level directed searches named by the obligation: context managers, accessors of new state
+    fn_target = req.get("function") or ""
+    cands = list(hint.get("context_managers") or [])
+    if "::" in fn_target:
+        cands.append(fn_target.split("::"))
+    for (r_, q_) in cands:
+        r = ctx_search(r_, q_)
+        if r:
+            r["found_by"] = "context-manager protocol"
+            return r
+    if "/schedule#" in oid:
+        for (r_, q_) in hint.get("patchers") or []:
+            r = patcher_schedule_search(r_, q_)
+            if r:
+                r["found_by"] = "patcher schedule"
+                return r
+    for ns in hint.get("new_states") or []:
+        for w in ns.get("writers") or []:
+            r = memo_search(ns.get("rel"), w)
+            if r:
+                r["found_by"] = "memo"
+                return r
+    if ("/ensures#" in oid or oid.endswith("/raises") or "/out-of-subset" in oid) and "::" in fn_target:
+        # an obligation of one function under symbolic contract: that function first (as a memo function, then under schedules)
+        rel, writer = fn_target.split("::")[0], fn_target.split("::")[1]
+        plan = ["memo", "schedule", "history"]
+    elif "/memo#" in oid:
+        plan = ["memo", "history", "serial"]
+    elif "/schedule#" in oid:
+        plan = ["schedule"]
+    elif "/ownership#" in oid:
+        plan = ["history", "serial", "schedule", "memo"]
+    elif "serialization" in oid or "/frame#" in oid:
+        plan = ["serial", "history", "memo", "schedule"]
+    else:
+        plan = ["history", "serial", "fixtures"]
+    tried = []
+    for step in plan:
+        r = None
+        try:
+            if step == "memo":
+                for w in ([writer] if writer else []) + list(hint.get("accessors") or []):
+                    r = memo_search(rel, w)
+                    if r:
+                        break
+            elif step == "history":
+                r = history_search()
+            elif step == "serial":
+                r = serial_search()
+            elif step == "schedule":
+                r = schedule_search(rel, funcs)
+            elif step == "fixtures":
+                mism, nfiles, nsample = fixtures_check()
+                if mism:
+                    r = {"reproduced": True, "target": mism[0][0], "inputs": {"history": "all fixtures forward then reverse in one process"},
+                         "expected": "same results as in isolation; process-global state restored", "observed": mism[0][1], "all": mism[:8]}
+        except Exception as e:  # noqa
+            tried.append(f"{step}: crashed {e!r}"[:200])
+            continue
+        tried.append(step)
+        if r:
+            r["found_by"] = step
+            return r
+    return {"reproduced": False, "note": "no failing history / schedule found by: " + ", ".join(tried)}
+
+
+def replay_known(k):
+    w = k.get("witness") or {}
+    if w.get("kind") == "schedule":
+        r = schedule_search(w.get("rel"), w.get("functions"))
+        return r or {"reproduced": False}
+    return {"reproduced": False, "note": "unknown witness kind"}
 
 
 def rerun(stored):
-    return find({})
+    return find({"obligation": stored.get("obligation"), "extra": stored.get("hint")})
